@@ -5,6 +5,7 @@ cd "$(dirname "$0")"
 export CARGO_NET_OFFLINE=true
 mkdir -p .cache work evidence replays
 (cd lean && lake build)
-[ -f harness/Cargo.lock ] || cp /repo/Cargo.lock harness/Cargo.lock
+REPO=${N2V_REPO:-/repo}
+[ -f harness/Cargo.lock ] || cp $REPO/Cargo.lock harness/Cargo.lock
 (cd harness && cargo build --offline)
-cargo build --offline --no-default-features --manifest-path /repo/Cargo.toml --target-dir .cache/n2bin
+cargo build --offline --no-default-features --manifest-path $REPO/Cargo.toml --target-dir .cache/n2bin
